@@ -6,6 +6,8 @@ import PyYetiVerif.Props.C18Tran
 import PyYetiVerif.Props.C18Ulvs
 import PyYetiVerif.Props.C18Prt
 import PyYetiVerif.Props.C18Cyc
+import PyYetiVerif.Props.C18Tran0
+import PyYetiVerif.Props.C18TranM
 #print axioms PyYetiVerif.C18.base_sets_disjoint
 #print axioms PyYetiVerif.C18.superset_is_union
 #print axioms PyYetiVerif.C18.superset_is_union_bitwise
@@ -96,3 +98,8 @@ import PyYetiVerif.Props.C18Cyc
 #print axioms PyYetiVerif.C18.index_helpers_refuse_together
 #print axioms PyYetiVerif.C18.upqsetpv_never_returns_of_progress
 #print axioms PyYetiVerif.C18.upqsetpv_cyclic_diverges
+#print axioms PyYetiVerif.C18.formtran0_gset
+#print axioms PyYetiVerif.C18.formtran0_gset_repeated
+#print axioms PyYetiVerif.C18.formtran0_phg
+#print axioms PyYetiVerif.C18.formtran0_pha
+#print axioms PyYetiVerif.C18.formtran_mset_composition
